@@ -2,6 +2,7 @@ package props
 
 import (
 	"bytes"
+	"encoding/hex"
 	"encoding/json"
 	"errors"
 	"flag"
@@ -515,16 +516,18 @@ func (f *c11FailIter) Next() ([]byte, []byte, error) {
 }
 
 type c11Report struct {
-	Phase     string             `json:"phase"`
-	Model     map[string]*string `json:"model,omitempty"`
-	Err       string             `json:"err,omitempty"`
-	Reads     map[string]*string `json:"reads,omitempty"`
-	Reached   bool               `json:"reached"`
-	Tables    int                `json:"tables"`
-	Selected  int                `json:"selected"`
-	OpenErr   string             `json:"open_err,omitempty"`
-	CloseErr  string             `json:"close_err,omitempty"`
-	FlushIdle bool               `json:"flush_idle"`
+	Phase      string             `json:"phase"`
+	Model      map[string]*string `json:"model,omitempty"`
+	Err        string             `json:"err,omitempty"`
+	Reads      map[string]*string `json:"reads,omitempty"`
+	Reached    bool               `json:"reached"`
+	Tables     int                `json:"tables"`
+	Selected   int                `json:"selected"`
+	OpenErr    string             `json:"open_err,omitempty"`
+	CloseErr   string             `json:"close_err,omitempty"`
+	FlushIdle  bool               `json:"flush_idle"`
+	ExclOldest bool               `json:"excl_oldest"`
+	Closed     bool               `json:"closed"`
 }
 
 func c11ReadAll(db *simpledb.DB, keys []string) (map[string]*string, error) {
@@ -611,8 +614,19 @@ func c11Sub(args []string) int {
 		return c11LiveClose(*dir, r, enc)
 	}
 	wbuf := uint64([]int{64, 256, 4096}[r.Intn(3)])
+	// half of the compaction scenarios whose fault is placed by a hook or a size limit leave the OLDEST table out of the
+	// cycle (it is made bigger than the size limit): the merge then has to keep tombstones, which is another code path
+	exclOldest := false
+	switch strings.Split(*fault, ":")[0] {
+	case "data", "index", "indexclose", "iter", "rlimit":
+		exclOldest = *mode == "compaction" && r.Intn(2) == 0
+	}
+	maxSize := uint64(1 << 40)
+	if exclOldest {
+		maxSize = 1500
+	}
 	db, err := simpledb.NewSimpleDB(*dir, simpledb.DisableCompactions(), simpledb.MemstoreSizeBytes(1<<30),
-		simpledb.WriteBufferSizeBytes(wbuf), simpledb.CompactionFileThreshold(0), simpledb.CompactionMaxSizeBytes(1<<40))
+		simpledb.WriteBufferSizeBytes(wbuf), simpledb.CompactionFileThreshold(0), simpledb.CompactionMaxSizeBytes(maxSize))
 	if err == nil {
 		err = db.Open()
 	}
@@ -650,6 +664,19 @@ func c11Sub(args []string) int {
 	tables := 0
 	if *mode == "compaction" {
 		tables = 2 + r.Intn(3)
+		if exclOldest {
+			tables++
+			// the oldest table: 40 further keys with incompressible 100-byte values (well above the size limit)
+			for i := 0; i < 40; i++ {
+				k, v := fmt.Sprintf("old-%03d", i), hex.EncodeToString(gen.Bytes(r, 50))
+				if err := db.Put(k, v); err != nil {
+					_ = enc.Encode(c11Report{Phase: "setup", Err: err.Error()})
+					return 3
+				}
+				keys = append(keys, k)
+				model[k] = &v
+			}
+		}
 		for t := 0; t < tables; t++ {
 			if err := write(3 + r.Intn(10)); err != nil {
 				_ = enc.Encode(c11Report{Phase: "setup", Err: err.Error()})
@@ -766,7 +793,22 @@ func c11Sub(args []string) int {
 		}
 	}
 	rep := c11Report{Phase: "result", Tables: tables}
-	if *mode == "flush" {
+	if *mode == "closeflush" {
+		// the memstore is written out by Close itself: a failure of that flush has to surface as an error of Close or as
+		// the end of the process, like any other flush
+		err = db.Close()
+		rep.Closed = true
+		// a flusher that failed ends in log.Panicf, and its deferred hand-shake with Close runs while that panic unwinds:
+		// Close can return nil a few microseconds before the process dies. As long as the flusher goroutine still exists
+		// its fate is open — the report is only written once it is gone (a flusher that ended normally is gone at once);
+		// if the process dies meanwhile, that is "the process stops"
+		for i := 0; c11GoroutineIn("", "simpledb.flushMemstoreContinuously"); i++ {
+			if i > 2000 {
+				select {} // still there after two seconds: leave the verdict to the parent's watchdog (inconclusive)
+			}
+			time.Sleep(time.Millisecond)
+		}
+	} else if *mode == "flush" {
 		err = db.VerifForceRotate()
 		if err != nil {
 			rep.Phase = "result-rotate-failed" // the fault hit the WAL rotation, i.e. before the flush began
@@ -779,12 +821,14 @@ func c11Sub(args []string) int {
 		}
 	} else {
 		var md interface{ GetSstablePaths() []string }
+		before := db.VerifLiveTables()
 		m, e := db.VerifCompactOnce()
 		err = e
 		if m != nil {
 			md = m
 			rep.Selected = len(md.GetSstablePaths())
 		}
+		rep.ExclOldest = exclOldest && len(before) >= 3
 	}
 	// disarm before reporting
 	if rlimit {
@@ -807,6 +851,11 @@ func c11Sub(args []string) int {
 	}
 	if bitflip {
 		rep.Reached = true // the damaged record sits in a table of the run (every live table is selected with these settings)
+	}
+	if rep.Closed {
+		_ = enc.Encode(rep)
+		_ = os.Stdout.Sync()
+		return 0
 	}
 	reads, rerr := c11ReadAll(db, keys)
 	rep.Reads = reads
@@ -1070,6 +1119,10 @@ func c11DB(c *fw.Case, j int) {
 		c11DBLiveClose(c, scenario)
 		return
 	}
+	if mode == "flush" && (scenario/3)%2 == 1 && spec < 10 {
+		mode = "closeflush" // the same faults, but the flush is the one Close performs
+		c.Obs("faults_placed_in_the_flush_that_close_performs", 1)
+	}
 	var fault string
 	switch {
 	case spec < 3:
@@ -1149,6 +1202,9 @@ func c11DB(c *fw.Case, j int) {
 		c.Nontrivial()
 		return
 	}
+	if result.Reached && result.ExclOldest {
+		c.Obs("faults_reached_in_cycles_that_leave_the_oldest_table_out", 1)
+	}
 	if result.Reached {
 		c.Obs("db_fault_reached", 1)
 		if kind == "rlimit" {
@@ -1179,7 +1235,7 @@ func c11DB(c *fw.Case, j int) {
 		return
 	}
 	// whether or not the fault was reached: what is readable must be the model
-	if d := c11DiffReads(armed.Model, result.Reads); d != "" {
+	if d := c11DiffReads(armed.Model, result.Reads); d != "" && !result.Closed {
 		sig := "db-fault/reads-differ-after-" + mode
 		if result.Err == "" {
 			sig += "/success-reported"
